@@ -16,7 +16,9 @@ import ast
 
 from ..cfg import build_cfg
 from ..model import AnalysisError, attr_chain, namedtuple_fields, src, walk_no_nested
+from ..sval import NONE, const, mk_attr, strip_ids, subterms
 from ..terms import callee_name, calls_in, compare_parts, flatten_add, inline, kwargs_of, single_def
+from .. import tq
 from . import common
 
 EXPLANATION = ('static analysis: exception-escape analysis of Configuration.__init__ with a YAML-untyped taint '
@@ -174,29 +176,28 @@ class Taint:
 
 
 # ------------------------------------------------------------------------------- B2 helpers
-def conf_reads(expr, dict_names):
-    """[(key, default expr | MANDATORY)] for every `d.get(K, D)` / `d[K]` on one of dict_names"""
+def conf_reads(term, d):
+    """[(key, default term | None | MANDATORY)] for every `d.get(K, D)` / `d[K]` on the dictionary parameter term `d`"""
     out = []
-    for x in ast.walk(expr):
-        if isinstance(x, ast.Call) and isinstance(x.func, ast.Attribute) and x.func.attr == 'get' \
-                and isinstance(x.func.value, ast.Name) and x.func.value.id in dict_names and x.args \
-                and isinstance(x.args[0], ast.Constant):
-            out.append((x.args[0].value, x.args[1] if len(x.args) > 1 else None))
-        elif isinstance(x, ast.Subscript) and isinstance(x.value, ast.Name) and x.value.id in dict_names \
-                and isinstance(x.slice, ast.Constant):
-            out.append((x.slice.value, MANDATORY))
+    for x in subterms(strip_ids(term)):
+        if not isinstance(x, tuple) or not x:
+            continue
+        if x[0] == 'call' and x[1] == 'method.get' and x[2] == d and x[3] and x[3][0][1][0] == 'const':
+            a = [v for _, v in x[3]]
+            out.append((a[0][2], a[1] if len(a) > 1 else None))
+        elif x[0] == 'index' and x[1] == d and x[2][0] == 'const':
+            out.append((x[2][2], MANDATORY))
     return out
 
 
-def default_value(ctx, fi, d):
-    if d is MANDATORY:
-        return MANDATORY
-    if d is None:
-        return None
-    try:
-        return ctx.prog.const_eval(d, fi.module, fi.cls)
-    except AnalysisError:
-        return src(d)
+def default_value(t):
+    if t is MANDATORY or t is None:
+        return t
+    if t[0] == 'const':
+        return t[2]
+    if t[0] == 'list' and all(isinstance(x, tuple) and x and x[0] == 'const' for x in t[1]):
+        return [x[2] for x in t[1]]
+    return tq.text(t)
 
 
 # field -> (reads as {(key, default)}, callee names that must wrap the value)
@@ -239,45 +240,38 @@ ENUM_TABLES = {
 }
 
 
-def ctor_calls(fi, name):
-    return [c for c in calls_in(fi.node) if isinstance(c.func, ast.Name) and c.func.id == name]
-
-
-def check_field(ctx, fi, dict_names, ntname, field, expr, spec):
+def check_field(ctx, fi, d, ntname, field, term, spec, site):
     reads_exp, wrappers = spec
-    e = inline(ctx.res, fi, expr, depth=5, stop=frozenset(dict_names) | {'ikeconf'})
-    reads = set((k, default_value(ctx, fi, d)) for k, d in conf_reads(e, dict_names))
+    reads = set((k, default_value(dv)) for k, dv in conf_reads(term, d))
     ctx.check(reads == reads_exp, 'B2', '%s.%s is read from %s' % (
-        ntname, field, ', '.join('%r (default %s)' % (k, 'none: mandatory' if d is MANDATORY else repr(d))
-                                 for k, d in sorted(reads_exp, key=str))),
-        key=('B2', ntname, field, 'reads'), site=ctx.site(fi, expr), detail={'found': sorted(map(str, reads))})
-    names = set(callee_name(c) for c in calls_in(e))
+        ntname, field, ', '.join('%r (default %s)' % (k, 'none: mandatory' if dv is MANDATORY else repr(dv))
+                                 for k, dv in sorted(reads_exp, key=str))),
+        key=('B2', ntname, field, 'reads'), site=site, detail={'found': sorted(map(str, reads))})
+    names = callee_names(term)
     ctx.check(wrappers <= names, 'B2', '%s.%s goes through %s' % (ntname, field, ', '.join(sorted(wrappers))),
-              key=('B2', ntname, field, 'conversion'), site=ctx.site(fi, expr),
-              detail={'found': sorted(n for n in names if n)})
+              key=('B2', ntname, field, 'conversion'), site=site, detail={'found': sorted(n for n in names if n)})
 
 
-def check_alg_list(ctx, fi, dict_names, what, name_expr, key, default, table, allow_empty_override=None):
-    """operand of the proposal's transform concatenation: `_load_crypto_algs(key, d.get(key, default), table)`"""
-    defs = ctx.res.local_defs(fi).get(name_expr.id, []) if isinstance(name_expr, ast.Name) else [name_expr]
-    loads = [d for d in defs if isinstance(d, ast.Call) and callee_name(d) == '_load_crypto_algs']
-    others = [d for d in defs if d not in loads]
-    ok = len(loads) == 1
+def check_alg_list(ctx, fi, d, what, term, key, default, table, ah_test, site):
+    """operand of the proposal's transform concatenation: `_load_crypto_algs(key, d.get(key, default), table)`; for the IPsec
+    `encr` list: that, or the empty list exactly when the protocol is AH"""
+    S = ctx.sval(fi)
+    loaded = term
+    if ah_test is not None:
+        st = strip_ids(ah_test)
+        esp = tq.restrict(term, lambda t: False if strip_ids(t) == st else None)
+        ah = tq.restrict(term, lambda t: True if strip_ids(t) == st else None)
+        ctx.check(ah == ('list', ()) and esp != ah, 'B2', '%s: the `%s` list is emptied exactly when the IPsec protocol is AH' % (what, key),
+                  key=('B2', what, key, 'ah-drops-encr'), site=site, detail={'found': tq.text(term, 300)})
+        loaded = esp
+    ok = tq.is_call(loaded, CLS + '._load_crypto_algs')
     if ok:
-        c = loads[0]
-        rd = conf_reads(c, dict_names)
-        ok = (len(c.args) == 3 and isinstance(c.args[0], ast.Constant) and c.args[0].value == key
-              and len(rd) == 1 and rd[0][0] == key and default_value(ctx, fi, rd[0][1]) == default
-              and src(c.args[2]) == table)
+        a = tq.args(loaded)
+        rd = conf_reads(a.get('names', NONE), d)
+        ok = a.get('key') == const(key) and len(rd) == 1 and rd[0][0] == key and default_value(rd[0][1]) == default \
+            and a.get('name_to_transform') == S._module_const(ctx.prog.module(CFG_MOD), table)
     ctx.check(ok, 'B2', '%s: `%s` algorithms come from key %r (default %r) through %s' % (what, key, key, default, table),
-              key=('B2', what, key, 'alg-list'), site=ctx.site(fi, name_expr))
-    if allow_empty_override is None:
-        ctx.check(not others, 'B2', '%s: the `%s` list is not replaced after loading' % (what, key),
-                  key=('B2', what, key, 'alg-override'), site=ctx.site(fi, name_expr))
-    else:
-        good = len(others) == 1 and isinstance(others[0], ast.List) and not others[0].elts and allow_empty_override()
-        ctx.check(good, 'B2', '%s: the `%s` list is emptied exactly when the IPsec protocol is AH' % (what, key),
-                  key=('B2', what, key, 'ah-drops-encr'), site=ctx.site(fi, name_expr))
+              key=('B2', what, key, 'alg-list'), site=site, detail={'found': tq.text(loaded, 200)})
 
 
 def run(ctx):
@@ -343,292 +337,293 @@ def run(ctx):
         return ps[idx]
 
     # --- IKE level
-    d_ike = {dict_param(like, 1)}
-    calls = ctor_calls(like, 'IkeConfiguration')
+    LK = ctx.sval(like)
+    d_ike = ('param', dict_param(like, 1))
+    calls = LK.calls_to(callee='namedtuple.IkeConfiguration')
     ctx.floor('B2 IkeConfiguration(...) construction', len(calls), 1)
     for c in calls:
-        kw = kwargs_of(c, names=ike_fields)
+        kw = c.args
+        site = ctx.site(like, c.node)
         for f, spec in IKE_FIELDS.items():
             ctx.require(f in kw, 'IkeConfiguration(...) without %s' % f)
-            check_field(ctx, like, d_ike, 'IkeConfiguration', f, kw[f], spec)
-        ctx.check(src(kw.get('name')) == like.call_params()[0], 'B2', 'IkeConfiguration.name is the connection name',
-                  key=('B2', 'IkeConfiguration', 'name'), site=ctx.site(like, c))
-        check_proposal(ctx, like, d_ike, 'IKE proposal', kw.get('proposal'), 'IKE', IKE_ALGS, False)
-        ctx.check(isinstance(kw.get('protect'), ast.List) and not kw['protect'].elts, 'B2',
-                  'IkeConfiguration.protect starts empty and is filled from the protect entries',
-                  key=('B2', 'IkeConfiguration', 'protect-init'), site=ctx.site(like, c))
-    # protect loop
-    loops = [n for n in walk_no_nested(like.node) if isinstance(n, ast.For)]
-    good = False
-    for lp in loops:
-        rd = conf_reads(lp.iter, d_ike)
-        if rd == [('protect', MANDATORY)] and src(lp.iter) == '%s[%r]' % (list(d_ike)[0], 'protect'):
-            body = [s for s in lp.body]
-            ap = [c for c in calls_in(lp) if callee_name(c) == 'append' and src(c.func.value).endswith('.protect')]
-            good = len(ap) == 1 and len(body) == 1 and ap[0].args and isinstance(ap[0].args[0], ast.Call) \
-                and callee_name(ap[0].args[0]) == '_load_ipsec_conf' and len(ap[0].args[0].args) == 2 \
-                and src(ap[0].args[0].args[1]) == src(lp.target)
-    ctx.check(good, 'B2', 'every entry of the mandatory `protect` list is loaded, in order, into IkeConfiguration.protect',
-              key=('B2', 'protect-loop'), site=ctx.site(like, like.node))
+            check_field(ctx, like, d_ike, 'IkeConfiguration', f, kw[f], spec, site)
+        ctx.check(kw.get('name') == ('param', like.call_params()[0]), 'B2', 'IkeConfiguration.name is the connection name',
+                  key=('B2', 'IkeConfiguration', 'name'), site=site)
+        check_proposal(ctx, like, d_ike, 'IKE proposal', kw.get('proposal'), 'IKE', IKE_ALGS, False, site)
+        # protect: starts empty, one entry appended per element of the mandatory `protect` list, in order
+        src_list = ('index', d_ike, const('protect'))
+        ok = kw.get('protect') == ('list', ())
+        aps = [x for x in LK.calls if x.name == 'append' and x.recv == ('list', ())]
+        ok = ok and len(aps) == 1
+        if ok:
+            a = strip_ids(list(aps[0].args.values())[0])
+            ok = tq.is_call(a, CLS + '._load_ipsec_conf') and strip_ids(tq.args(a).get('ikeconf', NONE)) == strip_ids(c.term) \
+                and tq.args(a).get('conf_dict') == ('elem', src_list, 0) and \
+                not [x for x in aps[0].pc if x not in c.pc and not (x[0][0] == 'cmp' and x[0][1] == 'in')]
+        ctx.check(ok, 'B2', 'every entry of the mandatory `protect` list is loaded, in order, into IkeConfiguration.protect '
+                  '(which starts empty)', key=('B2', 'protect-loop'), site=site)
     # keyed by (my_addr, peer_addr)
-    keyed = [n for n in walk_no_nested(init.node) if isinstance(n, ast.Assign) and isinstance(n.targets[0], ast.Subscript)
-             and src(n.targets[0].value) == 'self.ike_configurations']
+    IN = ctx.sval(init)
+    keyed = [(t, v, st) for t, v, _, st, _ in IN.stores if t[0] == 'index' and tq.contains(t[1], ('acc', 'self.ike_configurations', 0))
+             or (t[0] == 'index' and t[1] == ('attr', ('param', 'self'), 'ike_configurations'))]
     ctx.floor('B2 ike_configurations[...] = ... store', len(keyed), 1)
-    for n in keyed:
-        k = n.targets[0].slice
-        v = src(n.value)
-        ctx.check(isinstance(k, ast.Tuple) and [src(e) for e in k.elts] == [v + '.my_addr', v + '.peer_addr'], 'B2',
+    for t, v, st in keyed:
+        ctx.check(t[2] == ('tuple', (mk_attr(v, 'my_addr'), mk_attr(v, 'peer_addr'))) and tq.is_call(v, CLS + '._load_ike_conf'), 'B2',
                   'connections are keyed by (my_addr, peer_addr) of the loaded connection', key=('B2', 'keyed-by'),
-                  site=ctx.site(init, n))
+                  site=ctx.site(init, st), detail={'key': tq.text(t[2], 300)})
     gic = ctx.func(CLS + '.get_ike_configuration')
-    subs = [x for x in walk_no_nested(gic.node) if isinstance(x, ast.Subscript)
-            and src(x.value) == 'self.ike_configurations']
+    GC = ctx.sval(gic)
     ps = gic.call_params()
-    ctx.check(len(subs) == 1 and isinstance(subs[0].slice, ast.Tuple) and [src(e) for e in subs[0].slice.elts] == ps[:2],
+    rets = [t for _, t, _ in GC.returns]
+    ctx.check(len(rets) == 1 and rets[0] == ('index', ('attr', ('param', 'self'), 'ike_configurations'),
+                                            ('tuple', (('param', ps[0]), ('param', ps[1])))),
               'B2', 'lookup uses the same (local, peer) key order', key=('B2', 'lookup-key'), site=ctx.site(gic, gic.node))
 
     # --- IPsec level
-    d_ips = {dict_param(lips, 1)}
+    LP = ctx.sval(lips)
+    d_ips = ('param', dict_param(lips, 1))
     ikeconf_name = dict_param(lips, 0)
     ctx.require(ikeconf_name == 'ikeconf', 'parameter of _load_ipsec_conf renamed: adapt IPSEC_FIELDS defaults')
-    calls = ctor_calls(lips, 'IpsecConfiguration')
+    calls = LP.calls_to(callee='namedtuple.IpsecConfiguration')
     ctx.floor('B2 IpsecConfiguration(...) construction', len(calls), 1)
+    cm = prog.module(CFG_MOD)
     for c in calls:
-        kw = kwargs_of(c, names=ips_fields)
+        kw = c.args
+        site = ctx.site(lips, c.node)
         for f, spec in IPSEC_FIELDS.items():
             ctx.require(f in kw, 'IpsecConfiguration(...) without %s' % f)
-            check_field(ctx, lips, d_ips, 'IpsecConfiguration', f, kw[f], spec)
+            check_field(ctx, lips, d_ips, 'IpsecConfiguration', f, kw[f], spec, site)
         # orientation inside from_network: (subnet, port, proto) of the same side
         for f, side in (('my_ts', 'my'), ('peer_ts', 'peer')):
-            e = inline(res, lips, kw[f], 5, frozenset(d_ips) | {'ikeconf'})
-            okf = isinstance(e, ast.Call) and callee_name(e) == 'from_network' and len(e.args) == 3
+            e = kw[f]
+            okf = tq.is_call(e, 'message.TrafficSelector.from_network')
             if okf:
-                r0 = [k for k, _ in conf_reads(e.args[0], d_ips)]
-                r1 = [k for k, _ in conf_reads(e.args[1], d_ips)]
-                r2 = [k for k, _ in conf_reads(e.args[2], d_ips)]
+                a = tq.args(e)
+                r0 = [k for k, _ in conf_reads(a.get('subnet', NONE), d_ips)]
+                r1 = [k for k, _ in conf_reads(a.get('port', NONE), d_ips)]
+                r2 = [k for k, _ in conf_reads(a.get('ip_proto', NONE), d_ips)]
                 okf = r0 == [side + '_subnet'] and r1 == [side + '_port'] and r2 == ['ip_proto']
-            ctx.check(okf, 'B2', 'IpsecConfiguration.%s = from_network(%s_subnet, %s_port, ip_proto)' % (f, side, side),
-                      key=('B2', 'IpsecConfiguration', f, 'orientation'), site=ctx.site(lips, kw[f]))
+                ipt = a.get('ip_proto', NONE)
+                okf = okf and tq.is_call(ipt, CLS + '._load_from_dict') and \
+                    tq.args(ipt).get('cnf_dict') == LP._module_const(cm, '_ip_proto_name_to_enum')
+            ctx.check(okf, 'B2', 'IpsecConfiguration.%s = from_network(%s_subnet, %s_port, ip_proto looked up in _ip_proto_name_to_enum)' % (
+                f, side, side), key=('B2', 'IpsecConfiguration', f, 'orientation'), site=site)
         # index
-        e = inline(res, lips, kw['index'], 4, frozenset(d_ips))
+        e = kw['index']
         rd = conf_reads(e, d_ips)
         ctx.check(len(rd) == 1 and rd[0][0] == 'index' and rd[0][1] is not MANDATORY and rd[0][1] is not None
-                  and 'random' in src(rd[0][1]) and 'int' in set(callee_name(x) for x in calls_in(e)), 'B2',
+                  and any(isinstance(x[1], str) and x[1].startswith('random.') for x in tq.find_calls(rd[0][1]))
+                  and tq.is_call(e, 'builtins.int'), 'B2',
                   'IpsecConfiguration.index is the configured index, or a random one when absent',
-                  key=('B2', 'IpsecConfiguration', 'index'), site=ctx.site(lips, kw['index']))
-        # tables used by mode / ip_proto / ipsec_proto
-        for f, table in (('mode', '_mode_name_to_enum'),):
-            e = inline(res, lips, kw[f], 4, frozenset(d_ips))
-            ctx.check(isinstance(e, ast.Call) and callee_name(e) == '_load_from_dict' and len(e.args) == 2
-                      and src(e.args[1]) == table, 'B2', 'IpsecConfiguration.%s is looked up in %s' % (f, table),
-                      key=('B2', 'IpsecConfiguration', f, 'table'), site=ctx.site(lips, kw[f]))
-        ipd = single_def(res, lips, 'ip_proto')
-        ctx.check(isinstance(ipd, ast.Call) and callee_name(ipd) == '_load_from_dict' and len(ipd.args) == 2
-                  and src(ipd.args[1]) == '_ip_proto_name_to_enum', 'B2', 'ip_proto is looked up in _ip_proto_name_to_enum',
-                  key=('B2', 'ip_proto', 'table'), site=ctx.site(lips, lips.node))
-        check_proposal(ctx, lips, d_ips, 'IPsec proposal', kw.get('proposal'), None, IPSEC_ALGS, True)
+                  key=('B2', 'IpsecConfiguration', 'index'), site=site)
+        e = kw['mode']
+        ctx.check(tq.is_call(e, CLS + '._load_from_dict') and tq.args(e).get('cnf_dict') == LP._module_const(cm, '_mode_name_to_enum'),
+                  'B2', 'IpsecConfiguration.mode is looked up in _mode_name_to_enum', key=('B2', 'IpsecConfiguration', 'mode', 'table'),
+                  site=site)
+        check_proposal(ctx, lips, d_ips, 'IPsec proposal', kw.get('proposal'), None, IPSEC_ALGS, True, site)
 
     # --- auth level
-    d_auth = {dict_param(lauth, 0)}
-    dn = list(d_auth)[0]
-    calls = ctor_calls(lauth, 'AuthConfiguration')
+    LA = ctx.sval(lauth)
+    d_auth = ('param', dict_param(lauth, 0))
+    calls = LA.calls_to(callee='namedtuple.AuthConfiguration')
     ctx.floor('B2 AuthConfiguration(...) construction', len(calls), 1)
     for c in calls:
-        kw = kwargs_of(c, names=auth_fields)
+        kw = c.args
+        site = ctx.site(lauth, c.node)
 
         def optional(field, key, wrapper):
-            e = kw.get(field)
-            ok = isinstance(e, ast.IfExp) and src(e.test) == '%r in %s' % (key, dn) and tuple(
-                k for k, _ in conf_reads(e.body, d_auth)) == (key,) and isinstance(e.orelse, ast.Constant) \
-                and e.orelse.value is None
+            e = kw.get(field, NONE)
+            present = LA.mk_cmp('in', const(key), d_auth)
+            a, b = tq.restrict(e, lambda t: True if strip_ids(t) == strip_ids(present) else None), \
+                tq.restrict(e, lambda t: False if strip_ids(t) == strip_ids(present) else None)
+            ok = a != b and b == NONE and tuple(k for k, _ in conf_reads(a, d_auth)) == (key,)
             if ok:
-                names = [callee_name(x) for x in calls_in(e.body)]
+                names = callee_names(a)
                 ok = 'encode' in names and (wrapper is None or wrapper in names)
                 others = {'RsaPublicKey', 'RsaPrivateKey'} - {wrapper}
-                ok = ok and not (others & set(names))
+                ok = ok and not (others & names)
             ctx.check(ok, 'B2', 'AuthConfiguration.%s is the encoded %r value%s when present, else None' % (
-                field, key, ' loaded by %s' % wrapper if wrapper else ''), key=('B2', 'AuthConfiguration', field),
-                site=ctx.site(lauth, c))
+                field, key, ' loaded by %s' % wrapper if wrapper else ''), key=('B2', 'AuthConfiguration', field), site=site,
+                detail={'found': tq.text(e, 300)})
         optional('psk', 'psk', None)
         optional('pubkey', 'pubkey', 'RsaPublicKey')
         optional('privkey', 'privkey', 'RsaPrivateKey')
-        e = inline(res, lauth, kw.get('id'), 4, frozenset(d_auth))
+        e = kw.get('id', NONE)
         rd = conf_reads(e, d_auth)
-        ctx.check(isinstance(e, ast.Call) and callee_name(e) == '_get_payload_id' and len(rd) == 1 and rd[0][0] == 'id'
-                  and isinstance(rd[0][1], ast.Constant) and isinstance(rd[0][1].value, str), 'B2',
+        ctx.check(tq.is_call(e, CLS + '._get_payload_id') and len(rd) == 1 and rd[0][0] == 'id'
+                  and rd[0][1] is not None and rd[0][1] is not MANDATORY and rd[0][1][0] == 'const' and isinstance(rd[0][1][2], str), 'B2',
                   'AuthConfiguration.id is the typed `id` value (a fixed default when absent)',
-                  key=('B2', 'AuthConfiguration', 'id'), site=ctx.site(lauth, c))
+                  key=('B2', 'AuthConfiguration', 'id'), site=site)
     check_payload_id(ctx)
     check_crypto_algs(ctx)
     check_tables(ctx)
 
     # ---------------------------------------------------------------- B3
-    g = esc.add_exception_edges(like)
-    conds = []
-    for n in g.nodes:
-        if n.kind != 'cond':
-            continue
-        cp = compare_parts(n.ast)
-        if cp and cp[1] is ast.NotIn and src(cp[0]).endswith('.my_addr') and src(cp[2]) == like.call_params()[2]:
-            conds.append(n)
-    ctx.check(bool(conds), 'B3', '_load_ike_conf tests the connection\'s my_addr for membership in the listening addresses',
-              key=('B3', 'no-membership-test'), site=ctx.site(like, like.node))
-    for c in conds:
-        tnodes = [m for lab, m in c.succ if lab == 'T']
-        raises = all(isinstance(m.ast, ast.Raise) and 'ConfigurationError' in src(m.ast) for m in tnodes)
-        ctx.check(raises, 'B3', '`%s` raises ConfigurationError' % src(c.ast), key=('B3', 'raise'), site=ctx.site(like, c.ast))
-        rets = [n for n in g.nodes if n.kind == 'stmt' and isinstance(n.ast, ast.Return)]
-        ctx.check(bool(rets) and all(common.dominated_by_edge(g, r, c, 'F') for r in rets) and
-                  g.exit.id not in g.reach([g.entry], blocked_nodes=[c], follow_exc=False), 'B3',
-                  'every normal return of _load_ike_conf passes the membership test of my_addr in the listening addresses',
-                  key=('B3', 'dominates'), site=ctx.site(like, c.ast))
-        subj = src(compare_parts(c.ast)[0]).rsplit('.', 1)[0]
-        d = single_def(res, like, subj)
-        ctx.check(isinstance(d, ast.Call) and callee_name(d) == 'IkeConfiguration', 'B3',
-                  'the tested address is the one of the connection being loaded', key=('B3', 'subject'),
-                  site=ctx.site(like, c.ast))
+    listen = ('param', like.call_params()[2])
+    rets = [(pc, t) for pc, t, _ in LK.returns]
+    ctx.check(bool(rets), 'B3', '_load_ike_conf returns the loaded connection', key=('B3', 'no-membership-test'), site=ctx.site(like, like.node))
+    for pc, t in rets:
+        ok = tq.is_call(t, 'namedtuple.IkeConfiguration')
+        member = LK.mk_cmp('in', mk_attr(t, 'my_addr'), listen) if ok else None
+        ctx.check(ok and tq.entails(pc, member) is True, 'B3',
+                  'every normal return of _load_ike_conf passes the membership test of the loaded connection\'s my_addr in the listening '
+                  'addresses', key=('B3', 'dominates'), site=ctx.site(like, like.node),
+                  detail={'path condition': [('' if p else 'not ') + tq.text(a, 200) for a, p in pc]})
+        if ok:
+            bad = [(rpc, rt) for rpc, rt, _ in LK.raises if tq.entails(rpc, ('not', member)) is True]
+            ctx.check(bool(bad) and all(tq.is_call(rt, 'new configuration.ConfigurationError') for _, rt in bad), 'B3',
+                      'a connection whose my_addr is not a listening address raises ConfigurationError', key=('B3', 'raise'),
+                      site=ctx.site(like, like.node))
+    ctx.check(len(LK.exit_envs) == len(rets), 'B3', '_load_ike_conf has no other normal exit', key=('B3', 'other-exit'),
+              site=ctx.site(like, like.node))
     # the listening addresses reach _load_ike_conf unchanged
-    cs = [c for c in calls_in(init.node) if callee_name(c) == '_load_ike_conf']
+    cs = IN.calls_to(qual=CLS + '._load_ike_conf')
     ctx.floor('B3 _load_ike_conf call', len(cs), 1)
     for c in cs:
-        ctx.check(len(c.args) == 3 and src(c.args[2]) == init.call_params()[0], 'B3',
+        ctx.check(c.args.get(like.call_params()[2]) == ('param', init.call_params()[0]), 'B3',
                   'the listening addresses given to Configuration(...) are the ones tested', key=('B3', 'addresses-arg'),
-                  site=ctx.site(init, c))
+                  site=ctx.site(init, c.node))
     ctx.stats['uncatalogued library calls'] = sorted(esc.uncatalogued)
 
 
-def check_proposal(ctx, fi, dict_names, what, expr, proto, algs, ipsec):
-    res = ctx.res
-    ok = isinstance(expr, ast.Call) and callee_name(expr) == 'Proposal' and len(expr.args) == 4
-    ctx.check(ok, 'B2', '%s is built as Proposal(num, protocol, spi, transforms)' % what, key=('B2', what, 'shape'),
-              site=ctx.site(fi, expr if expr is not None else fi.node))
+def callee_names(t):
+    out = set()
+    for x in tq.find_calls(t):
+        c = x[1]
+        if isinstance(c, str):
+            out.add(c.replace('new ', '').split('.')[-1])
+    return out
+
+
+def segments(t):
+    """the lists a list-valued term is the concatenation of: `a + b + [x]`, `l = []; l.extend(a); l += b; l.append(x)` and
+    `[*a, *b, x]` give the same segments"""
+    from ..sval import mk_cond, pc_term
+    if t[0] == 'add':
+        out = []
+        for x in t[1]:
+            out.extend(segments(x))
+        return out
+    if t[0] == 'list' and any(isinstance(i, tuple) and i and (i[0] == 'star' or (i[0] == 'when' and i[2][0] == 'star')) for i in t[1]):
+        out, plain = [], []
+        for i in t[1]:
+            if isinstance(i, tuple) and i and i[0] == 'star':
+                if plain:
+                    out.append(('list', tuple(plain)))
+                    plain = []
+                out.extend(segments(i[1]))
+            elif isinstance(i, tuple) and i and i[0] == 'when' and len(i) == 3 and i[2][0] == 'star':
+                if plain:
+                    out.append(('list', tuple(plain)))
+                    plain = []
+                out.append(mk_cond(pc_term(i[1]), i[2][1], ('list', ())))
+            else:
+                plain.append(i)
+        if plain:
+            out.append(('list', tuple(plain)))
+        return out
+    return [t]
+
+
+def check_proposal(ctx, fi, d, what, expr, proto, algs, ipsec, site):
+    S = ctx.sval(fi)
+    ok = expr is not None and tq.is_call(expr, 'new message.Proposal')
+    ctx.check(ok, 'B2', '%s is built as Proposal(num, protocol, spi, transforms)' % what, key=('B2', what, 'shape'), site=site)
     if not ok:
         return
-    ctx.check(isinstance(expr.args[0], ast.Constant) and expr.args[0].value == 1 and isinstance(expr.args[2], ast.Constant)
-              and expr.args[2].value == b'', 'B2', '%s has number 1 and an empty SPI' % what, key=('B2', what, 'num-spi'),
-              site=ctx.site(fi, expr))
+    a = tq.args(expr)
+    ctx.check(a.get('num') == const(1) and a.get('spi') == const(b''), 'B2', '%s has number 1 and an empty SPI' % what,
+              key=('B2', what, 'num-spi'), site=site)
+    pid = a.get('protocol_id', NONE)
     if proto is not None:
-        ctx.check(src(expr.args[1]) == 'Proposal.Protocol.' + proto, 'B2', '%s has protocol %s' % (what, proto),
-                  key=('B2', what, 'protocol'), site=ctx.site(fi, expr))
+        ctx.check(pid == ('global', 'message.Proposal.Protocol.' + proto), 'B2', '%s has protocol %s' % (what, proto),
+                  key=('B2', what, 'protocol'), site=site)
     else:
-        d = single_def(res, fi, src(expr.args[1]))
-        rd = conf_reads(d, dict_names) if isinstance(d, ast.AST) else []
-        ctx.check(isinstance(d, ast.Call) and callee_name(d) == '_load_from_dict' and len(rd) == 1
-                  and rd[0][0] == 'ipsec_proto' and default_value(ctx, fi, rd[0][1]) == 'esp'
-                  and src(d.args[1]) == '_ipsec_proto_name_to_enum', 'B2',
-                  '%s has the configured ipsec_proto (default esp)' % what, key=('B2', what, 'protocol'),
-                  site=ctx.site(fi, expr))
-    ops = flatten_add(expr.args[3])
+        rd = conf_reads(pid, d)
+        ctx.check(tq.is_call(pid, CLS + '._load_from_dict') and len(rd) == 1 and rd[0][0] == 'ipsec_proto'
+                  and default_value(rd[0][1]) == 'esp' and
+                  tq.args(pid).get('cnf_dict') == S._module_const(ctx.prog.module(CFG_MOD), '_ipsec_proto_name_to_enum'), 'B2',
+                  '%s has the configured ipsec_proto (default esp)' % what, key=('B2', what, 'protocol'), site=site)
+    tr = a.get('transforms', NONE)
+    ops = segments(tr)
     want = len(algs) + (1 if ipsec else 0)
     ctx.check(len(ops) == want, 'B2', '%s concatenates exactly %d transform lists' % (what, want),
-              key=('B2', what, 'concat-len'), site=ctx.site(fi, expr))
+              key=('B2', what, 'concat-len'), site=site, detail={'transforms': tq.text(tr, 600)})
     if len(ops) != want:
         return
     for op, (key, default, table) in zip(ops, algs):
-        over = None
-        if ipsec and key == 'encr':
-            pname = src(expr.args[1])
-
-            def over(pname=pname, fi=fi):
-                for n in walk_no_nested(fi.node):
-                    if isinstance(n, ast.If) and not n.orelse and len(n.body) == 1 and isinstance(n.body[0], ast.Assign) \
-                            and src(n.body[0].targets[0]) == 'encr':
-                        cp = compare_parts(n.test)
-                        if cp and cp[1] is ast.Eq and {src(cp[0]), src(cp[2])} == {pname, 'Proposal.Protocol.AH'}:
-                            return True
-                return False
-        check_alg_list(ctx, fi, dict_names, what, op, key, default, table, over)
+        ah = S.mk_cmp('==', pid, ('global', 'message.Proposal.Protocol.AH')) if (ipsec and key == 'encr') else None
+        check_alg_list(ctx, fi, d, what, op, key, default, table, ah, site)
     if ipsec:
-        last = ops[-1]
-        d = single_def(res, fi, last.id) if isinstance(last, ast.Name) else last
-        ok = isinstance(d, ast.List) and len(d.elts) == 1 and isinstance(d.elts[0], ast.Call) \
-            and callee_name(d.elts[0]) == 'Transform' and [src(a) for a in d.elts[0].args] == [
-                'Transform.Type.ESN', 'Transform.EsnId.NO_ESN']
-        ctx.check(ok, 'B2', '%s ends with the NO_ESN transform' % what, key=('B2', what, 'no-esn'), site=ctx.site(fi, expr))
+        ctx.check(strip_ids(ops[-1]) == strip_ids(S.expr('[Transform(Transform.Type.ESN, Transform.EsnId.NO_ESN)]')), 'B2',
+                  '%s ends with the NO_ESN transform' % what, key=('B2', what, 'no-esn'), site=site)
 
 
 def check_payload_id(ctx):
     fi = ctx.func(CLS + '._get_payload_id')
+    P = ctx.sval(fi)
     p = fi.call_params()[0]
-    tries = [n for n in walk_no_nested(fi.node) if isinstance(n, ast.Try)]
-    ok = len(tries) == 1
+    rets = [(pc, strip_ids(t)) for pc, t, _ in P.returns]
+    ip = [(pc, t) for pc, t in rets if not any(a[0][0] == 'caught' for a in pc)]
+    txt = [(pc, t) for pc, t in rets if any(a[0][0] == 'caught' and 'ValueError' in tq.text(a[0]) for a in pc)]
+    addr = strip_ids(P.expr('ip_address(%s)' % p))
+    ok = len(ip) == 1 and tq.is_call(ip[0][1], 'new message.PayloadID') and tq.args(ip[0][1]).get('id_data') == ('attr', addr, 'packed')
     if ok:
-        t = tries[0]
-        rets = [n for n in ast.walk(ast.Module(body=t.body, type_ignores=[])) if isinstance(n, ast.Return)]
-        ok = len(rets) == 1 and isinstance(rets[0].value, ast.Call) and callee_name(rets[0].value) == 'PayloadID'
-        if ok:
-            a = rets[0].value.args
-            ty = inline(ctx.res, fi, a[0], 3) if len(a) == 2 else None
-            addr = [n for n in t.body if isinstance(n, ast.Assign) and isinstance(n.value, ast.Call)
-                    and callee_name(n.value) == 'ip_address' and src(n.value.args[0]) == p]
-            ok = len(a) == 2 and len(addr) == 1 and src(a[1]) == src(addr[0].targets[0]) + '.packed'
-            if ok:
-                an = src(addr[0].targets[0])
-                # the type definition inside the try
-                tdefs = [n.value for n in t.body if isinstance(n, ast.Assign) and src(n.targets[0]) == src(a[0])]
-                tv = tdefs[0] if tdefs else ty
-                ok = isinstance(tv, ast.IfExp) and (
-                    (src(tv.test) == an + '.version == 4' and src(tv.body).endswith('ID_IPV4_ADDR')
-                     and src(tv.orelse).endswith('ID_IPV6_ADDR'))
-                    or (src(tv.test) == an + '.version == 6' and src(tv.body).endswith('ID_IPV6_ADDR')
-                        and src(tv.orelse).endswith('ID_IPV4_ADDR')))
-            ok = ok and all('ValueError' in src(h.type) for h in t.handlers if h.type is not None) and len(t.handlers) == 1
+        ty = tq.args(ip[0][1]).get('id_type', NONE)
+        vals = []
+        for v in (4, 6):
+            def leaf(t, v=v):
+                if t == ('attr', addr, 'version'):
+                    return v
+                if t[0] == 'global':
+                    return t[1].split('.')[-1]
+                raise tq.NoValue()
+            try:
+                vals.append(tq.teval(ty, leaf))
+            except (tq.NoValue, Exception):
+                vals.append(None)
+        ok = vals == ['ID_IPV4_ADDR', 'ID_IPV6_ADDR']
     ctx.check(ok, 'B2', 'an id that parses as an IP address is typed ID_IPV4_ADDR / ID_IPV6_ADDR by its version and '
-              'carries the packed address', key=('B2', '_get_payload_id', 'ip'), site=ctx.site(fi, fi.node))
-    ifs = [n for n in fi.node.body if isinstance(n, ast.If)]
-    ok2 = False
-    for n in ifs:
-        cp = compare_parts(n.test)
-        if cp and cp[1] is ast.In and isinstance(cp[0], ast.Constant) and cp[0].value == '@' and src(cp[2]) == p \
-                and len(n.body) == 1 and len(n.orelse) == 1 and isinstance(n.body[0], ast.Assign) \
-                and isinstance(n.orelse[0], ast.Assign):
-            ok2 = src(n.body[0].value).endswith('ID_RFC822_ADDR') and src(n.orelse[0].value).endswith('ID_FQDN') \
-                and src(n.body[0].targets[0]) == src(n.orelse[0].targets[0])
-            tn = src(n.body[0].targets[0])
-            last = fi.node.body[-1]
-            ok2 = ok2 and isinstance(last, ast.Return) and isinstance(last.value, ast.Call) \
-                and callee_name(last.value) == 'PayloadID' and [src(a) for a in last.value.args] == [tn, p + '.encode()']
-    ctx.check(ok2, 'B2', 'any other id is typed ID_RFC822_ADDR when it contains "@", else ID_FQDN, and carries the '
-              'encoded text', key=('B2', '_get_payload_id', 'text'), site=ctx.site(fi, fi.node))
+              'carries the packed address', key=('B2', '_get_payload_id', 'ip'), site=ctx.site(fi, fi.node),
+              detail={'returns': [tq.text(t, 300) for _, t in rets]})
+    ok2 = len(txt) == 1 and len(rets) == 2 and tq.is_call(txt[0][1], 'new message.PayloadID') and \
+        tq.args(txt[0][1]).get('id_data') == strip_ids(P.expr('%s.encode()' % p))
+    if ok2:
+        ty = tq.args(txt[0][1]).get('id_type', NONE)
+        at = strip_ids(P.mk_cmp('in', const('@'), ('param', p)))
+        a_, b_ = tq.restrict(ty, lambda t: True if strip_ids(t) == at else None), tq.restrict(ty, lambda t: False if strip_ids(t) == at else None)
+        ok2 = tq.text(a_).endswith('ID_RFC822_ADDR') and tq.text(b_).endswith('ID_FQDN')
+    ctx.check(ok2, 'B2', 'any other id (ip_address raised ValueError) is typed ID_RFC822_ADDR when it contains "@", else ID_FQDN, and '
+              'carries the encoded text', key=('B2', '_get_payload_id', 'text'), site=ctx.site(fi, fi.node))
 
 
 def check_crypto_algs(ctx):
     fi = ctx.func(CLS + '._load_crypto_algs')
     ps = fi.call_params()
     ctx.require(len(ps) == 3, 'anchor vanished: _load_crypto_algs(key, names, name_to_transform)')
-    loops = [n for n in walk_no_nested(fi.node) if isinstance(n, ast.For)]
-    ok = len(loops) == 1 and src(loops[0].iter) == ps[1]
-    if ok:
-        lp = loops[0]
-        aps = [c for c in calls_in(lp) if callee_name(c) == 'append']
-        ok = len(aps) == 1 and not any(isinstance(n, (ast.If, ast.Continue, ast.Break)) for n in ast.walk(lp))
-        if ok:
-            lst = src(aps[0].func.value)
-            e = inline(ctx.res, fi, aps[0].args[0], 3)
-            ok = isinstance(e, ast.Call) and callee_name(e) == '_load_from_dict' and len(e.args) == 2 \
-                and src(e.args[0]) == 'str(%s)' % src(lp.target) and src(e.args[1]) == ps[2]
-            rets = [n for n in walk_no_nested(fi.node) if isinstance(n, ast.Return)]
-            ok = ok and len(rets) == 1 and src(rets[0].value) == lst
-            init = single_def(ctx.res, fi, lst)
-            ok = ok and isinstance(init, ast.List) and not init.elts
-    ctx.check(ok, 'B2', 'algorithm lists are translated name by name, in the listed order, without filtering or sorting',
-              key=('B2', '_load_crypto_algs', 'order'), site=ctx.site(fi, fi.node))
-    g = build_cfg(fi)
-    guard = [n for n in g.nodes if n.kind == 'cond' and src(n.ast) in ('type(%s) is not list' % ps[1],
-                                                                        'isinstance(%s, list)' % ps[1])]
-    ok = False
-    for c in guard:
-        lab = 'F' if src(c.ast).startswith('type(') else 'T'
-        loop_heads = [h for h, l in g.loops]
-        ok = ok or all(common.dominated_by_edge(g, h, c, lab) for h in loop_heads)
-    ctx.check(ok, 'B2', 'a value that is not a list is rejected before it is iterated', key=('B2', '_load_crypto_algs', 'guard'),
-              site=ctx.site(fi, fi.node))
+    A = ctx.sval(fi)
+    names = ('param', ps[1])
+    rets = [(pc, strip_ids(t)) for pc, t, _ in A.returns]
+    want = ('list', (('each', 0, names, (), ('call', CLS + '._load_from_dict', ('param', 'self'),
+                                             (('key', ('call', 'builtins.str', NONE, (('#0', ('elem', names, 0)),))),
+                                              ('cnf_dict', ('param', ps[2]))))),))
+    ctx.check(len(rets) == 1 and rets[0][1] == want and len(A.exit_envs) == 1, 'B2',
+              'algorithm lists are translated name by name, in the listed order, without filtering or sorting',
+              key=('B2', '_load_crypto_algs', 'order'), site=ctx.site(fi, fi.node), detail={'returns': [tq.text(t, 300) for _, t in rets]})
+    is_list = [A.expr('type(%s) is list' % ps[1]), A.expr('isinstance(%s, list)' % ps[1])]
+    ok = bool(rets) and any(tq.entails(rets[0][0], g) is True for g in is_list)
+    bad = [(rpc, rt) for rpc, rt, _ in A.raises]
+    ok = ok and bool(bad) and all(tq.is_call(rt, 'new configuration.ConfigurationError') for _, rt in bad)
+    ctx.check(ok, 'B2', 'a value that is not a list is rejected (ConfigurationError) before it is iterated',
+              key=('B2', '_load_crypto_algs', 'guard'), site=ctx.site(fi, fi.node))
     lfd = ctx.func(CLS + '._load_from_dict')
-    t = [n for n in walk_no_nested(lfd.node) if isinstance(n, ast.Try)]
-    ok = len(t) == 1 and any('KeyError' in src(h.type) and any(isinstance(s, ast.Raise) and 'ConfigurationError' in src(s)
-                                                               for s in h.body) for h in t[0].handlers if h.type is not None)
+    L = ctx.sval(lfd)
     ps = lfd.call_params()
-    ok = ok and any(isinstance(s, ast.Return) and src(s.value) == '%s[%s]' % (ps[1], ps[0]) for s in t[0].body)
+    rets = [(pc, t) for pc, t, _ in L.returns]
+    ok = len(rets) == 1 and rets[0][1] == ('index', ('param', ps[1]), ('param', ps[0])) and not rets[0][0]
+    bad = [(rpc, rt) for rpc, rt, _ in L.raises]
+    ok = ok and len(bad) == 1 and tq.is_call(bad[0][1], 'new configuration.ConfigurationError') and \
+        any(a[0][0] == 'caught' and 'KeyError' in tq.text(a[0]) for a in bad[0][0])
     ctx.check(ok, 'B2', 'an unknown name is refused with ConfigurationError and a known one returns its table entry',
               key=('B2', '_load_from_dict'), site=ctx.site(lfd, lfd.node))
 
